@@ -173,9 +173,17 @@ def c18(ck):
     def bump(field):
         return lambda e: e[field].__setitem__(7, e[field][7] ^ 1)
     def widen(e):
-        # pretend one out-of-range integer was converted
-        e["runs"][0]["hi"] -= 1
-        e["runs"].insert(1, {"lo": e["runs"][0]["hi"] + 1, "hi": e["runs"][0]["hi"] + 1, "verdict": "ok"})
+        # pretend one integer far outside the 16-bit range was converted (wrong whatever the library under test did to
+        # the edges of the range: an edge value made a corrupted copy come out *right* under one seeded change)
+        x = 1000000
+        for i, r in enumerate(e["runs"]):
+            if r["lo"] <= x <= r["hi"]:
+                new = [{"lo": r["lo"], "hi": x - 1, "verdict": r["verdict"]}] if r["lo"] < x else []
+                new.append({"lo": x, "hi": x, "verdict": "ok"})
+                if x < r["hi"]:
+                    new.append({"lo": x + 1, "hi": r["hi"], "verdict": r["verdict"]})
+                e["runs"][i:i + 1] = new
+                break
     events = stateless_check(
         ck, binary, "c18", "Trace_C18", [],
         [("ModeBlock", bump("raw")), ("ModeBlock", bump("class")), ("NegBlock", bump("perms")),
